@@ -24,8 +24,8 @@ ROUTER_TY = 'QueuerRouting'
 FS = 'FactoryState::<TKey, TMsg, TWorker, TWorkerStart, TRouter, TQueue>::'
 
 
-def new_interp(prog, router_ty):
-    I = C13.factory_interp(prog)
+def new_interp(prog, router_ty, pool_models=False):
+    I = cp.new_interp(prog) if pool_models else C13.factory_interp(prog)
     for meth in ('route_message', 'choose_target_worker', 'on_worker_availability_change', 'is_factory_queueing'):
         body = prog.find_fn('<%s<TKey, TMsg> as Router<TKey, TMsg>>::%s' % (router_ty, meth)) or prog.find_fn('<%s as Router>::%s' % (router_ty, meth))
         if body is None:
@@ -93,7 +93,8 @@ def read_state(prog, I, st, fc, router_ty):
 
 def inv_claims(dq, fl, pool, qlen):
     avail = [w for w, v in pool.items() if v['idle'] and not v['draining']]
-    return {'deque_has_no_duplicates_and_flags_agree': len(set(dq)) == len(dq) and all((w in dq) == fl[w] for w in range(len(fl))),
+    # (removal from the deque is lazy: an entry whose flag was cleared is stale and skipped when popped, so stale entries and repeated ids are part of the design)
+    return {'flagged_workers_are_in_the_deque': all(w in dq for w in range(len(fl)) if fl[w]),
             'every_available_worker_is_known_to_the_router': all(w in dq for w in avail),
             'no_job_waits_in_the_factory_queue_while_a_worker_is_idle': qlen == 0 or not avail}
 
@@ -141,7 +142,50 @@ def check(ctx, prog, router_ty=ROUTER_TY):
                 if op == 'dispatch' and qlen2 == qn:
                     seen.add('dispatched_to_an_idle_worker')
                 lp.record(ctx, name, o.st, claims, 'C14.' + tag0, on_cex=cex)
-    for w_ in ('backlog', 'queued_job_goes_to_the_freed_worker', 'dispatched_to_an_idle_worker'):
+    # worker death as the factory handles it, and pool resizes (coroutines: a worker is spawned)
+    import lifecycle as lc
+    sup_fn = '<Factory<TKey, TMsg, TWorkerStart, TWorker, TRouter, TQueue> as Actor>::handle_supervisor_evt'
+    if prog.find_fn(sup_fn) is None or prog.find_fn(cp.RESIZE) is None:
+        raise Inconclusive('handle_supervisor_evt / resize_pool not found')
+    for (busy, dq, qn) in states(ctx.tier):
+        steps = [('death', w) for w in range(3)] + [('resize', n) for n in (2, 4)]
+        for op, arg in steps:
+            I = new_interp(prog, router_ty, pool_models=True)
+            st = State()
+            fc = st.alloc(mk_state(prog, I, st, router_ty, busy, dq, qn))
+            if op == 'death':
+                cell = Agg('ActorCell', (Opaque('props', ident='actor%d' % arg),))
+                ev = Enum('SupervisionEvent', 'ActorFailed', 2, (cell, Opaque('err')))
+                st, coro = lc.make_coro(I, st, prog, sup_fn, [Ref(st.alloc(Opaque('Factory')), ()), cp.actor_ref('myself'), ev, Ref(fc, (), True)])
+            else:
+                st, coro = lc.make_coro(I, st, prog, cp.RESIZE, [Ref(fc, (), True), Ref(st.alloc(cp.actor_ref('myself')), ()), I.mk_int(arg, 'usize')])
+            cc = st.alloc(coro)
+            frontier, done = [(st, 0)], []
+            while frontier:
+                s, n = frontier.pop()
+                for o in lc.poll_coro(I, s, cc):
+                    if o.kind != 'ret' or o.val.variant == 'Ready':
+                        done.append(o)
+                    elif n < 6:
+                        frontier.append((o.st, n + 1))
+                    else:
+                        raise Inconclusive('%s did not complete within 6 polls' % op)
+            ctx.absorb(I)
+            ctx.paths += len(done)
+            for k, o in enumerate(done):
+                name = '%s.busy%s.dq%s.q%d.%s%d.path%d' % (tag0, ''.join(map(str, busy)) or '-', ''.join(map(str, dq)) or '-', qn, op, arg, k)
+                rp = {'router': router_ty, 'busy': list(busy), 'deque': list(dq), 'queue': qn, 'op': op, 'w': arg}
+                cex = (lambda rp=rp: (lambda m: replay(rp)))()
+                if o.kind != 'ret':
+                    lp.record(ctx, name, o.st, {'step_completes_without_panic': False}, 'C14.' + tag0, on_cex=cex)
+                    continue
+                if o.val.fields[0].variant == 'Err':
+                    lp.record(ctx, name, o.st, {'step_fails_only_when_a_spawn_failed': any(e[0] == 'SPAWN_FAILED' for e in o.st.trace)}, 'C14.' + tag0, on_cex=cex)
+                    continue
+                dq2, fl2, pool2, qlen2 = read_state(prog, I, o.st, fc, router_ty)
+                lp.record(ctx, name, o.st, inv_claims(dq2, fl2, pool2, qlen2), 'C14.' + tag0, on_cex=cex)
+                seen.add('death' if op == 'death' else 'resize')
+    for w_ in ('backlog', 'queued_job_goes_to_the_freed_worker', 'dispatched_to_an_idle_worker', 'death', 'resize'):
         ctx.note_witness('C14.%s.%s' % (tag0, w_), w_ in seen)
     ctx.bounds[tag0] = 'FactoryState::dispatch / worker_finished_job with the real %s, workers 0..2 idle or busy, every deque order over the idle workers with at most one stale entry, factory queue 0..2 jobs' % router_ty
 
